@@ -169,6 +169,23 @@ def _t_note(message, context=None): return ('result', ['note', message, context]
 def _t_bump(by=1): return ('result', ['bump', by if isinstance(by, int) and not isinstance(by, bool) else 1], ('cnt.bump', (by,), {}))
 
 
+KEYED_JSON = {
+    'int': {'1': 'a', '2': 'b'}, 'mixed': {'200': 7, 'total': 8, '404': 1}, 'float': {'1.5': 'x', 'y': 2},
+    'consts': {'true': 1, 'null': 2, 'z': 3}, 'nested': {'k': [{'7': {'8': 'deep', 'x': None}}]},
+    'neg-and-str': {'-1': 0, '-2': 0, 'a': {'b': 1, '3': 2}},
+}
+
+
+def _t_keyed(kind, how='result'):
+    v = KEYED_JSON.get(kind, {}) if isinstance(kind, str) else {}
+    if how == 'error':
+        return ('error', (TYPED_CODE, TYPED_MESSAGE, v), ('keyed', (kind, how), {}))
+    return ('result', ['keyed', v], ('keyed', (kind, how), {}))
+
+
+def _t_stale(data=ABSENT, peek=True): return ('error', (70003, 'probe long-lived error', data), ('stale', (data, peek), {}))
+
+
 def _t_byid(id, extra=0): return ('result', ['byid', id, extra], ('byid', (id, extra), {}))
 def _t_wrapped(a, b=0): return ('result', ['wrapped', a, b], ('wrapped', (a, b), {}))
 def _t_vm(a, b=0): return ('result', ['vm', a, b], ('view.vm', (a, b), {}))
@@ -181,6 +198,7 @@ TWINS = {
     'cowrapped': _t_cowrapped, 'js_draft4': _t_js_draft4, 'window': _t_window, 'mutate': _t_mutate, 'broken.vm': _t_broken,
     'odd_defaults': _t_odd_defaults, 'tc_only': _t_tc_only, 'pd_strip': _t_pd_strip, 'view.cm': _t_cm, 'view.sm': _t_sm, 'view.note': _t_note, 'cnt.bump': _t_bump,
     'pd_even': _t_pd_even, 'pd_span': _t_pd_span, 'pd_asis': _t_pd_asis, 'js_ref': _t_js_ref, 'rpc.ping': _t_rpc_ping, 'js_list': _t_js_list, 'ctxm_plain': _t_ctxm_plain,
+    'keyed': _t_keyed, 'stale': _t_stale,
 }
 
 
